@@ -31,8 +31,11 @@ def adapt(run):
             out.append({"ev": "Release", "e": ev["tag"], "count": ev["count"], "fired": bool(ev["fired"])})
         elif k == "release" and ev["fired"]:
             out.append({"ev": "FiredElsewhere", "e": ev["tag"], "site": ev["site"]})
+        elif k == "cons_fail":
+            out.append({"ev": "ConsumerFail", "e": d2e.get(ev["d"], -1)})
         elif k == "emit_done":
-            out.append({"ev": "EmitDone", "e": ev["e"]})
+            # (C16: the consumer's failure must reach the emitter -- and only a failure may)
+            out.append({"ev": "EmitRaised" if ev.get("exc") else "EmitDone", "e": ev["e"]})
         elif k == "time":
             out.append({"ev": "Advance", "now": int(ev["now"]) if float(ev["now"]).is_integer() else -1})
         elif k == "end":
@@ -55,8 +58,8 @@ def attribute(run, trace, idx):
         return "C10", "element %s was delivered with metadata %s instead of its own" % (ev.get("e"), ev.get("md"))
     if k in ("CbEmit", "Advance", "ObsNext", "End"):
         return "C13", "%s does not match the specification (spacing / order / reservation)" % k
-    if k == "EmitDone":
-        return "C03", "emit completed at a point the specification does not allow"
+    if k in ("EmitDone", "EmitRaised"):
+        return "C03", "emit completed / raised at a point the specification does not allow"
     if k in ("Release", "FiredElsewhere", "UpRelease"):
         e = ev.get("e")
         if (ev.get("fired") or k == "FiredElsewhere") and amod.premature(trace, idx, e, sync=sync):
@@ -77,11 +80,11 @@ def run(tier, seed, mutant=None, only_validate=False):
             for interval in ((2,) if tier == "quick" else (1, 2, 3)):
                 for sync in (False, True):
                     r, rec = amod.mc(res, work, "AsyncRateLimit", "i%d_sync%d" % (interval, sync),
-                                     dict(NE=ne, Interval=interval, SyncCons=sync, MaxTime=3 * interval + 2, Retain=True),
+                                     dict(NE=ne, Interval=interval, SyncCons=sync, MaxTime=3 * interval + 2, Retain=True, Faults=not sync),
                                      INVS, workers=16)
                     amod.spec_violation(res, r, rec, INV_PROP, "C13", "rate_limit")
             r, rec = amod.mc(res, work, "AsyncRateLimit", "legacy_CbSafe",
-                             dict(NE=2, Interval=2, SyncCons=False, MaxTime=4, Retain=False), ["CbSafe"])
+                             dict(NE=2, Interval=2, SyncCons=False, MaxTime=4, Retain=False, Faults=False), ["CbSafe"])
             rec["expected_violation"] = "CbSafe"
             rec["ok"] = r.violated == "CbSafe"
             if r.violated != "CbSafe":
@@ -90,9 +93,10 @@ def run(tier, seed, mutant=None, only_validate=False):
                 for i in ((2,) if tier == "quick" else (1, 2, 3)) for c in ("future", "coro", "sync")]
         # intervals given as strings (convert_interval): seconds, hours, whole days
         cfgs += [{"kind": "rate_limit", "interval": i, "cons": ["future"], "max_elems": 3} for i in ("2s", "1d", "36h")]
+        cfgs += [{"kind": "rate_limit", "interval": 2, "cons": [c], "max_elems": ne, "faults": True} for c in ("future", "coro")]
         amod.node_engine(res, work, node="rate_limit", trace_module="AsyncRateLimitTrace", cfgs=cfgs,
                          consts_of=lambda c: dict(NE=ne, Interval=amod.seconds(c["interval"]), SyncCons=c["cons"][0] == "sync",
-                                                  MaxTime=100000000, Retain=True),
+                                                  MaxTime=100000000, Retain=True, Faults=bool(c.get("faults"))),
                          adapt=adapt, attribute=attribute, seed=seed, depth=8 if tier == "quick" else 10,
                          limit=300 if tier == "quick" else 3000, nrandom=250 if tier == "quick" else 2500,
                          default_prop="C13", mutant=mutant,
@@ -111,7 +115,7 @@ def canaries(tier, seed):
 
 
 TRACE_MODULE = "AsyncRateLimitTrace"
-consts_of = lambda c: dict(NE=c['max_elems'], Interval=amod.seconds(c['interval']), SyncCons=c['cons'][0] == 'sync', MaxTime=100000000, Retain=True)
+consts_of = lambda c: dict(NE=c['max_elems'], Interval=amod.seconds(c['interval']), SyncCons=c['cons'][0] == 'sync', MaxTime=100000000, Retain=True, Faults=bool(c.get('faults')))
 
 
 def replay(v):
